@@ -212,7 +212,10 @@ func (g *vgen) wsCase(t *testing.T, i int) {
 		if len(pend) == 0 {
 			choice = g.pick(60, 12, 22, 0, 6)
 		} else {
-			choice = g.pick(18, 55, 14, 8, 5)
+			choice = g.pick(18, 55, 14, 8, 5, 7)
+		}
+		if choice == 5 && !en {
+			choice = 1
 		}
 		if choice == 3 && len(moved) == 0 {
 			choice = 1
@@ -301,6 +304,33 @@ func (g *vgen) wsCase(t *testing.T, i int) {
 			c.opHead(lat, pe, r.Intn(2) == 0, pick)
 		case 2, 4: // re-observation request
 			c.opReobs(g.reobs(c, truth, choice == 4, en, W), pick)
+		case 5: // a new message is logged while the watcher is processing a head at which a pending message has reached its depth
+			keys := make([]pendingKey, 0, len(pend))
+			for k := range pend {
+				keys = append(keys, k)
+			}
+			sort.Slice(keys, func(i, j int) bool { return vKeyCanon(keys[i]) < vKeyCanon(keys[j]) })
+			best := pend[keys[r.Intn(len(keys))]]
+			tgt := best.height
+			if c.wait {
+				tgt += uint64(best.message.ConsistencyLevel)
+			}
+			if tgt <= c.lastPub {
+				tgt = c.lastPub + 1
+			}
+			tgt += uint64(g.pick(5, 2, 1, 1)) * uint64(1+r.Intn(40))
+			lat := tgt
+			if strings.Contains(c.tag, "finalized") {
+				lat += c.gapF
+			}
+			tr := &vTruth{tx: g.hash(0xaa), bh: g.hash(0xbb), bn: tgt + uint64(r.Intn(4)), bt: uint64(1600000000 + r.Intn(100000000))}
+			if r.Intn(3) == 0 && tgt > 3 {
+				tr.bn = tgt - uint64(r.Intn(3))
+			}
+			truth = append(truth, tr)
+			m := g.msgSpec()
+			tr.msgs = append(tr.msgs, m)
+			c.opRace(vLogSpec{tx: tr.tx, bh: tr.bh, bn: tr.bn, m: m, bt: vBtAns{kind: "ok", t: tr.bt}}, lat, pick)
 		case 3: // a transaction that moved is observed again in its new block
 			tr := moved[r.Intn(len(moved))]
 			for _, m := range tr.msgs {
@@ -504,6 +534,132 @@ func (g *vgen) scenarioCases(t *testing.T) {
 			g.stuck++
 		}
 		c.stop()
+	}
+}
+
+// fixed scenarios: message B is logged while the head at which message A has reached its depth is being processed (the node is
+// slow to answer A's receipt request); both transactions stay in their blocks; later heads must forward B exactly once.
+// keeper: a third message far from its depth keeps the pending set (and the poller) alive whatever happens to A and B.
+func (g *vgen) raceCases(t *testing.T) {
+	i := 0
+	for _, wait := range []bool{true, false} {
+		for _, chain := range []vaa.ChainID{vaa.ChainIDBSC, vaa.ChainIDEthereum} {
+			for _, keeper := range []bool{true, false} {
+				for _, aAns := range []string{"ok", "err", "null"} {
+					if g.stuck >= 3 {
+						return
+					}
+					gap := uint64(0)
+					if chain == vaa.ChainIDEthereum {
+						gap = 13
+					}
+					c := &vCase{t: t, g: g, id: fmt.Sprintf("rc%d", i), chain: chain, wait: wait, gapF: gap, gapS: gap / 2}
+					i++
+					g.r.Read(c.contract[:])
+					c.lat = 90 + gap
+					if !c.startLine(false) {
+						c.stop()
+						continue
+					}
+					conf := func(cl uint8) uint64 {
+						if wait {
+							return uint64(cl)
+						}
+						return 0
+					}
+					cur := "ok"
+					var txA ethCommon.Hash
+					pick := func(x vTxRef) vRcAns {
+						bn := x.bn
+						if x.tx == txA {
+							switch cur {
+							case "err":
+								return vRcAns{kind: "err"}
+							case "null":
+								return vRcAns{kind: "null"}
+							}
+						}
+						return vRcAns{kind: "r", status: 1, bh: x.bh, bn: &bn}
+					}
+					mk := func(bn uint64, cl uint8) vLogSpec {
+						m := g.msgSpec()
+						m.cl = cl
+						return vLogSpec{tx: g.hash(0xaa), bh: g.hash(0xbb), bn: bn, m: m, bt: vBtAns{kind: "ok", t: 1700000000 + bn}}
+					}
+					a := mk(101, 2)
+					txA = a.tx
+					c.opLog(a, pick)
+					if keeper && !c.dead() {
+						c.opLog(mk(400, 5), pick)
+					}
+					b := mk(101+conf(2)+1, 1)
+					if !c.dead() {
+						cur = aAns
+						c.opRace(b, 101+conf(2)+gap, pick)
+						cur = "ok"
+					}
+					for _, hd := range []uint64{b.bn + conf(1), b.bn + conf(1) + 1, b.bn + conf(1) + 70} {
+						if c.dead() {
+							break
+						}
+						c.opHead(hd+gap, 0, false, pick)
+					}
+					if c.stuck != "" {
+						g.stuck++
+					}
+					c.stop()
+				}
+			}
+		}
+	}
+}
+
+// fixed scenarios: re-observation requests on a chain read at finalized height (and, as control, the same history read at latest
+// height): a successful core-contract transaction in a block below / at / above the finalized head, at / above the latest head;
+// then finality catches up and the request is repeated.
+func (g *vgen) finReobsCases(t *testing.T) {
+	i := 0
+	for _, dev := range []bool{false, true} {
+		for _, wait := range []bool{false, true} {
+			for _, off := range []int64{-1, 0, 1, 21, 32, 33} { // block number relative to the finalized head 100 (latest 132)
+				if g.stuck >= 3 {
+					return
+				}
+				c := &vCase{t: t, g: g, id: fmt.Sprintf("fr%d", i), chain: vaa.ChainIDEthereum, dev: dev, wait: wait, gapF: 32, gapS: 16}
+				i++
+				g.r.Read(c.contract[:])
+				c.lat = 132
+				if !c.startLine(false) {
+					c.stop()
+					continue
+				}
+				bn := uint64(100 + off)
+				m := g.msgSpec()
+				m.cl = uint8(g.r.Intn(2))
+				bh := g.hash(0xbb)
+				ro := vReobs{tx: g.hash(0xaa), bt: vBtAns{kind: "ok", t: 1700000000 + bn}}
+				var st ethCommon.Hash
+				copy(st[12:], m.sender[:])
+				ro.rc = vRcAns{kind: "r", status: 1, bh: bh, bn: &bn, logs: []*ethTypes.Log{{Address: c.contract,
+					Topics: []ethCommon.Hash{LogMessagePublishedTopic, st}, Data: vPackData(m), BlockNumber: bn, TxHash: ro.tx, BlockHash: bh}}}
+				c.opReobs(ro, g.goodAnswer)
+				for _, lat := range []uint64{bn + 32 + uint64(m.cl) - 1, bn + 32 + uint64(m.cl)} {
+					if c.dead() {
+						break
+					}
+					if lat > c.lat {
+						c.opHead(lat, 0, false, g.goodAnswer)
+					}
+					if !c.dead() {
+						c.opReobs(ro, g.goodAnswer)
+					}
+				}
+				if c.stuck != "" {
+					g.stuck++
+				}
+				c.stop()
+			}
+		}
 	}
 }
 
@@ -819,6 +975,8 @@ func TestVerifEvm(t *testing.T) {
 	if os.Getenv("VERIF_EVM_NOSC") == "" {
 		g.scenarioCases(t)
 		g.zeroHeadCases(t)
+		g.raceCases(t)
+		g.finReobsCases(t)
 	}
 	for i := 0; i < nWs && g.stuck < 3; i++ {
 		g.wsCase(t, i)
